@@ -562,8 +562,14 @@ func redactPipelineStage(stage interface{}, redactFieldNames bool, keyPath []str
 					continue
 				}
 			}
-			if str, ok := v.(string); ok && len(str) > 0 && str[0] == '$' && !redactFieldNames {
-				newMap.Set(redactedKey, v)
+			if str, ok := v.(string); ok && len(str) > 0 && str[0] == '$' {
+				// a "$field" reference: kept, or - when field names are redacted - replaced by its pseudonym
+				// (not by the generic placeholder, so that it still lines up with the renamed keys)
+				if _, isCoreOp := CoreOperators.Get(str); !redactFieldNames || isCoreOp {
+					newMap.Set(redactedKey, v)
+				} else {
+					newMap.Set(redactedKey, HashName(str))
+				}
 				continue
 			}
 			switch vTyped := v.(type) {
